@@ -167,13 +167,13 @@ func runC17(r *Run) {
 		sets := callsMatching(c.h, false, nameHasSuffix("v3.Storage).Set"))
 		r.need(len(sets) == 1, "handler calls Storage.Set once")
 		es := tupleEdges(c.h, c.next.(*ssa.Call), -1, func(br branch) (int, bool) { return br.nilSlot(true) })
-		okDom := false
+		cutOK := map[edge]bool{}
 		for _, e := range es {
-			if e.To().Dominates(sets[0].Block()) {
-				okDom = true
-			}
+			cutOK[e] = true
 		}
-		r.check(okDom, "record:only-after-success", r.pos(sets[0].Instr), "Storage.Set is dominated by the handler's err == nil edge", "a failed handler execution can be recorded as the answer")
+		_, hitSet := reach(pointAfter(c.next), func(in ssa.Instruction) bool { return in == sets[0].Instr }, cutOK, nil)
+		okDom := len(es) > 0 && hitSet == nil
+		r.check(okDom, "record:only-after-success", r.pos(sets[0].Instr), "Storage.Set is unreachable from the handler call with its err == nil edge removed", "a failed handler execution can be recorded as the answer")
 		keyName := cellName(c.key)
 		sk := sets[0].Common.Args[0]
 		okKey := sk == c.key || (keyName != "" && cellName(sk) == keyName)
